@@ -6,6 +6,7 @@ from . import common as C
 from . import dataset as D
 
 PID = 'C03'
+IMPL_KEYS = ('ivs', 'sel', 'orders', 'closest')     # values observed on the REAL code, sent to the driver (see check: evaluate)
 PARALLEL = True
 BATCH = 800
 BUDGET_S = {'quick': 80, 'thorough': 1200}
